@@ -8,6 +8,7 @@ CONSTANTS
   AllValues = FALSE
   Rots = {0}
   PatSet = {"alt"}
+  Boundaries = {1}
   NearFields = 0
   EFN = {}
   EFMaxThreads = 3
